@@ -131,3 +131,31 @@ Definition json_array_bytes (l : list bytes) : bytes := [91%N] ++ join 44%N l ++
 
 (* consecutive chunks, all ways of looking at "the ids are ordered and distinct" *)
 Definition ids_ordered (ids : list bytes) : Prop := StronglySorted lex_lt ids.
+
+(* the receiving side of a chunk: unwrap the msgpack message, gunzip if flagged, split the payload into records
+   (Forward modes) / gunzip and parse the JSON array (Datadog).  All four decoders are parameters. *)
+Section Receiver.
+Variable R : Type.
+Variable gunz : bytes -> bytes.
+Variable mp_unwrap : bytes -> option (bytes * bool * Z * bytes * bool * bytes).
+Variable parse_forward : bytes -> option (list R).
+Variable parse_json_array : bytes -> option (list R).
+
+Definition receive (cfg : config) (data : bytes) : option (list R) :=
+  match cf_kind cfg with
+  | KForward =>
+      match mp_unwrap data with
+      | Some (_, _, _, _, compressed, payload) => parse_forward (if compressed then gunz payload else payload)
+      | None => None
+      end
+  | KDatadog => parse_json_array (gunz data)
+  end.
+
+(* all records received from a sequence of chunks, in order; None if one of them does not decode *)
+Fixpoint all_received (l : list (option (list R))) : option (list R) :=
+  match l with
+  | [] => Some []
+  | Some g :: l' => match all_received l' with Some r => Some (g ++ r) | None => None end
+  | None :: _ => None
+  end.
+End Receiver.
